@@ -19,7 +19,12 @@ pub fn run(ctx: &mut Ctx) {
             continue;
         }
         ctx.begin(i);
-        let l = logical_for(ctx, "c02", i);
+        let mut l = logical_for(ctx, "c02", i);
+        if i % 160 == 148 {
+            // tiles above 2^24 bytes that are still reader-backed when the archive is written (two-session build)
+            let len = (1usize << 24) + 4097 + (i as usize % 1000);
+            l = crate::gen::gen_huge_tiles(&mut ctx.rng("c02.huge", i), l.internal_compression, len);
+        }
         let mut rng = ctx.rng("c02.probe", i);
         if i % 6 == 4 {
             crate::checks::common::failing_calls_before(&mut rng, None);
